@@ -37,6 +37,7 @@ PLAN = {
         "harnesses": [
             H("c04_counter_increment", "new == old.wrapping_add(v) for all (old, v)"),
             H("c04_counter_absolute", "new == max(old, v) for all (old, v)", covers=2),
+            H("c04_counter_absolute_rg", "absolute(v) with other threads raising the counter before each atomic step: afterwards the value is >= v and never below its value at entry", kind="rely-guarantee", replay=False, covers=1, sub="rg"),
             H("c04_gauge_increment", "new == bits(f64(old) + v) for all 2^128 (old, v)", covers=2),
             H("c04_gauge_decrement", "new == bits(f64(old) - v) for all 2^128 (old, v)", covers=1),
             H("c04_gauge_set", "new == bits(v)"),
